@@ -1427,6 +1427,10 @@ class BinaryOperator(SymbolicExpression, ABC):
         required_vars = HashedIterable()
         if child is self.left:
             required_vars.update(self.right._unique_variables_)
+        else:
+            # the outputs of the right operand fill the right cache, which is keyed on all of its variables: outputs
+            # that differ in one of them are different cache entries, not duplicates of each other.
+            required_vars.update(self.right._unique_variables_)
         if when_true or (when_true is None):
             for conc in self._conclusion_:
                 required_vars.update(conc._unique_variables_)
